@@ -16,6 +16,8 @@ var hostPool = []string{
 	"city.kawasaki.jp", "x.city.kawasaki.jp", "localhost", "google.com", "google.co.uk",
 	"www.google.de", "notgoogle.com", "a.google.b.notgoogle.com", "xn--e1afmkfd.xn--p1ai",
 	"1.2.3.4", "doubleclick.net", "ad.doubleclick.net", "evil.org", "good.evil.org",
+	// names made of hexadecimal digits and dots only: they look like addresses to a character-class test, they are not
+	"abc.de", "cafe.abc.de", "decade.cafe",
 }
 
 var wildcardDomains = []string{"google.*", "example.*", "foo.*", "www.google.*", "tracker.*"}
